@@ -130,6 +130,7 @@ class Journaler:
         assert next_num_out is None or next_num_out > 0
         assert next_num_in is None or next_num_in > 0
 
+        old_nums = (session.next_num_out, session.next_num_in)
         if next_num_out is not None:
             session.next_num_out = next_num_out
         else:
@@ -140,20 +141,30 @@ class Journaler:
         else:
             next_num_in = session.next_num_in
 
-        self.cursor.execute(
-            "UPDATE session SET inboundSeqNo=?, outboundSeqNo=?  WHERE sessionId = ?",
-            (next_num_in - 1, next_num_out - 1, session.key),
-        )
+        try:
+            self.cursor.execute(
+                "UPDATE session SET inboundSeqNo=?, outboundSeqNo=?"
+                "  WHERE sessionId = ?",
+                (next_num_in - 1, next_num_out - 1, session.key),
+            )
 
-        self.cursor.execute(
-            "DELETE FROM message WHERE session = ? AND seqNo >= ? AND direction = ?",
-            (session.key, next_num_in, MessageDirection.INBOUND.value),
-        )
-        self.cursor.execute(
-            "DELETE FROM message WHERE session = ? AND seqNo >= ? AND direction = ?",
-            (session.key, next_num_out, MessageDirection.OUTBOUND.value),
-        )
-        self.conn.commit()
+            self.cursor.execute(
+                "DELETE FROM message"
+                " WHERE session = ? AND seqNo >= ? AND direction = ?",
+                (session.key, next_num_in, MessageDirection.INBOUND.value),
+            )
+            self.cursor.execute(
+                "DELETE FROM message"
+                " WHERE session = ? AND seqNo >= ? AND direction = ?",
+                (session.key, next_num_out, MessageDirection.OUTBOUND.value),
+            )
+            self.conn.commit()
+        except Exception:
+            # refused by the database (a number it cannot store): nothing of the
+            #  call stays, neither pending in the transaction nor in the session
+            self.conn.rollback()
+            session.next_num_out, session.next_num_in = old_nums
+            raise
 
     def persist_msg(
         self,
